@@ -12,6 +12,7 @@ mod c17;
 mod c01;
 mod c03;
 mod c16;
+mod c20;
 
 use util::*;
 
@@ -30,6 +31,51 @@ fn main() {
   let mut rng = Rng::new(seed.wrapping_mul(0x9E3779B97F4A7C15).wrapping_add(prop.bytes().map(|b| b as u64).sum::<u64>()));
   let profile = format!("{}{}", if is_debug() { "debug" } else { "release" }, if has_bmi2() { "+bmi2" } else { "" });
   out.rec(&format!("profile {} {}", if is_debug() { "debug" } else { "release" }, if has_bmi2() { "bmi2" } else { "lut" }), "ok");
+  if prop == "C20" {
+    // parent: one sub-process per batch (each slot of the two lazy tables can be used once per process)
+    let nb = if thorough { 12 } else { 6 };
+    let exe = std::env::current_exe().unwrap();
+    for b in 0..nb {
+      let sub = format!("{}/batch{}", dir, b);
+      let st = std::process::Command::new(&exe).args(&["C20batch", &args[2], &args[3], &sub, &b.to_string()]).stdout(std::process::Stdio::null()).status();
+      match st {
+        Ok(s) if s.success() => {
+          // merge the sub-process files
+          let req = std::fs::read_to_string(format!("{}/req.txt", sub)).unwrap_or_default();
+          let imp = std::fs::read_to_string(format!("{}/impl.txt", sub)).unwrap_or_default();
+          for (r, a) in req.lines().zip(imp.lines()).skip(1) { out.rec(r, a); }
+          if let Ok(o) = std::fs::read_to_string(format!("{}/oracle.json", sub)) {
+            // cheap extraction of counts: evaluations and violations are re-derived from the text
+            out.evaluations += req.lines().count() as u64 - 1;
+            // distribution of the sub-process
+            let mut rest = &o[..];
+            while let Some(p) = rest.find("\"C20:") {
+              let tail = &rest[p + 1..];
+              if let Some(q) = tail.find("\":") {
+                let key = &tail[..q];
+                let num: String = tail[q + 2..].chars().take_while(|c| c.is_ascii_digit()).collect();
+                if let Ok(n) = num.parse::<u64>() { if !key.contains("violation") { out.stat_n(key, n); } }
+                rest = &tail[q..];
+              } else { break; }
+            }
+            if let Some(p) = o.find("\"violations\":[") { let v = &o[p + 14..]; if !v.starts_with("]") { out.violation("C20:batch", format!("batch {}", b), "no violation".into(), v.chars().take(1200).collect()); } }
+          }
+        }
+        _ => out.violation("C20:batch-crashed", format!("batch {}", b), "exit 0".into(), "crash".into()),
+      }
+      out.stat("C20:batches");
+    }
+    out.finish(dir, prop, &profile);
+    return;
+  }
+  if prop == "C20batch" {
+    let b: usize = args[5].parse().unwrap_or(0);
+    let sched = c20::gen_schedules(&mut rng, b, thorough);
+    if b == 0 { /* batch 0 also hosts nothing else */ }
+    if b + 1 == (if thorough { 12 } else { 6 }) { c20::stress(&mut out); } else { c20::run_batch(&mut out, &sched); }
+    out.finish(dir, "C20", &profile);
+    return;
+  }
   match prop {
     "C18" => c18::run(&mut out, &mut rng, thorough),
     "C07" => c07::run_c07(&mut out, &mut rng, thorough),
